@@ -187,12 +187,12 @@ func (cl *call) sendLoop(cs grpc.ClientStream) {
 }
 
 func (cl *call) recvLoop(cs grpc.ClientStream) {
+	m := new(wrapperspb.BytesValue) // one object for every RecvMsg of this call (the library must overwrite it)
 	for op := range cl.recvQ {
 		switch op.op {
 		case "recv":
 			cl.begin("recv")
 			tr.emit(cl.base("SRecv"))
-			m := new(wrapperspb.BytesValue)
 			err := cs.RecvMsg(m)
 			r := cl.base("SRecvRet")
 			switch {
